@@ -4,6 +4,7 @@ import (
 	"fmt"
 	"go/token"
 	"go/types"
+	"strings"
 
 	"golang.org/x/tools/go/ssa"
 )
@@ -511,6 +512,14 @@ func (ex *Executor) typeAssert(st *State, fr *frame, x *ssa.TypeAssert) Value {
 		}
 		st.Fact(Implies(ok, Neq(iv, IntLit(0))))
 		holds := ex.TypeHolds != nil && ex.TypeHolds(at)
+		if holds && x.CommaOk {
+			// v, ok := x.(T) is a genuine test, except inside the Must*/EnsureCan*
+			// upgrade helpers, whose panic branch is excluded by wiring (wf_types)
+			n := fr.fn.Name()
+			if !(strings.HasPrefix(n, "Must") || strings.HasPrefix(n, "EnsureCan")) {
+				holds = false
+			}
+		}
 		if ex.AssumeNonNil != nil {
 			for _, leaf := range iteLeaves(iv) {
 				if ex.AssumeNonNil(leaf) {
